@@ -165,3 +165,31 @@ func Verif_C11_invalid_skipped() {
 	vs.Assert("set with a skipped pattern still matches by its valid pattern", (bm[0]&(1<<5) != 0) == want)
 	vs.Assert("other sets are unaffected", (bm[1]&(1<<8) != 0) == want)
 }
+
+// Verif_C11_letter_case: every letter of the alphabet, queried in upper case (with or without the
+// trailing dot), matches the lower-case pattern of each kind that contains it; digits, '-' and '_'
+// match as they are.
+func Verif_C11_letter_case() {
+	w := &c11AC{pats: map[*ahocorasick.Matcher][][]byte{}}
+	c11Install(w)
+	kind := []consts.RoutingDomainKey{consts.RoutingDomainKey_Full, consts.RoutingDomainKey_Suffix, consts.RoutingDomainKey_Keyword}[vs.Choice("kind", 3)]
+	chars := "abcdefghijklmnopqrstuvwxyz09-_"
+	ci := vs.Choice("char", len(chars))
+	c := chars[ci]
+	up := c
+	if c >= 'a' && c <= 'z' {
+		up = c - 'a' + 'A'
+	}
+	pattern := "x" + string(c) + ".b"
+	query := "X" + string(up) + ".B"
+	if vs.Bool("trailingDot") {
+		query += "."
+	}
+	m := NewAhocorasickSlimtrie(nil, 64)
+	m.AddSet(3, []string{pattern}, kind)
+	vs.Assert("matcher builds", m.Build() == nil)
+	bm := m.MatchDomainBitmap(query)
+	vs.Assert("a name matches its own pattern whatever the letter case", bm[0] == 1<<3 && bm[1] == 0)
+	other := m.MatchDomainBitmap("x" + string(c) + "b.b")
+	vs.Assert("and a different name does not", other[0] == 0)
+}
